@@ -11,7 +11,10 @@ META = {
 
 def run(ctx):
     q = ctx.quick()
-    design = [{"steps": 5 if q else 6, "universe": "Small", "crash": False, "invariants": ["C08_Forward"], "witnesses": 40 if q else 400}]
+    design = [{"steps": 5 if q else 6, "universe": "Small", "crash": False, "invariants": ["C08_Forward", "C08_FinalizeNeedsQuorum", "C08_FinStepHasElapsed"],
+               "properties": ["C08_StepForward", "C08_PosForward"], "witnesses": 40 if q else 400},
+              {"steps": 4 if q else 5, "universe": "Two", "crash": True, "rich": True, "invariants": ["C08_Forward", "C08_FinalizeNeedsQuorum", "C08_FinStepHasElapsed"],
+               "properties": ["C08_StepForward", "C08_PosForward"]}]
     plans = [{"cover": True, "universe": "Small", "steps": 5 if q else 6},
              {"cover": True, "universe": "Small", "steps": 4 if q else 5, "rich": True, "crash": True, "cap": 3000 if q else 20000},
              {"universe": "", "rich": True, "sim": 8 if q else 60, "steps": 9 if q else 12, "cap": 300 if q else 5000, "seeds": 1 if q else 3},
